@@ -41,8 +41,8 @@ LEVEL = "model_checking"
 # scenario catalogue
 
 
-def _opts(tool, bak=False, stale=False, outx=False, js=False, changed=True):
-    return {"tool": tool, "bak": bak, "stale": stale, "outx": outx, "json": js, "changed": changed}
+def _opts(tool, bak=False, stale=False, outx=False, js=False, changed=True, link=False):
+    return {"tool": tool, "bak": bak, "stale": stale, "outx": outx, "json": js, "changed": changed, "link": link}
 
 
 LARGE = "".join("key%04d: value number %d with some padding text\n" % (i, i) for i in range(1500))
@@ -272,6 +272,23 @@ def scenarios(ctx, rng):
                             "files": {"t.yaml": "a: [1\nb: }\n"}, "target": "t.yaml",
                             "argv": ["eyaml-rotate-keys"] + bflag + ROT_KEYS + ["{d}/t.yaml"], "cause": "unreadable",
                             "pattern": r"YAML (parsing|syntax) error"})
+    # file-kind dimension: the target is a symbolic link (absolute / relative) to a regular file.  Every tool but
+    # yaml-merge --output (which only reads its first input) saves through the same protocol.
+    quick_docs = {"map", "anchors", "flowroot", "dotjson", "large", "maps", "single", "json", "string", "anchored", "nosecret"}
+    linked = []
+    for n, sc in enumerate(out):
+        if sc["tool"] == "merge_out" or sc["doc"].startswith("natural:"):
+            continue
+        if ctx.quick and not (sc["doc"] in quick_docs or sc["doc"].startswith("cause:")):
+            continue
+        kinds = ("abs", "rel") if (not ctx.quick or sc["doc"] in ("map", "maps", "string")) else (("abs", "rel")[n % 2],)
+        for kind in kinds:
+            c = copy.deepcopy(sc)
+            c["link"] = kind
+            c["o"]["link"] = True
+            c["doc"] = sc["doc"] + "@" + kind + "-symlink"
+            linked.append(c)
+    out += linked
     for i, sc in enumerate(out):
         sc["id"] = i
     return out
@@ -280,14 +297,22 @@ def scenarios(ctx, rng):
 # ---------------------------------------------------------------------------------------------
 # running one scenario with every fault
 
+CUTS_QUICK = {"partial": ("half",), "buffered": ("one", "most")}
+CUTS_ALL = {"partial": ("one", "third", "most"), "buffered": ("one", "third", "most")}
+
+
 def fault_variants(ev, sc):
     """The ways the k-th call can fail, from the kind of call it is."""
     if ev["op"] == "copy2":
         return [{"kind": "fail", "eff": e} for e in ("none", "empty", "partial", "full")]
     if ev["op"] == "dump":
-        v = [{"kind": "fail", "eff": e} for e in ("none", "partial", "full")]
+        # dump-partial: the dump delivers a strict prefix of the new document (a few prefix lengths), already in the
+        # file ("partial") or still buffered in the handle ("buffered"), and then raises
+        cuts = CUTS_QUICK if sc.get("_quick") else CUTS_ALL
+        part = [{"eff": "partial", "cut": c} for c in cuts["partial"]] + [{"eff": "buffered", "cut": c} for c in cuts["buffered"]]
+        v = [{"kind": "fail", "eff": e} for e in ("none", "full")] + [dict(x, kind="fail") for x in part]
         if sc["tool"] == "set" and not sc["o"]["json"]:
-            v += [{"kind": "assert", "eff": e} for e in ("none", "partial")]
+            v += [{"kind": "assert", "eff": "none"}] + [dict(x, kind="assert") for x in part]
         return v
     return [{"kind": "fail", "eff": "none"}]
 
@@ -329,7 +354,7 @@ def proj(events):
 
 
 def okey(o):
-    return "%s b%d s%d x%d j%d c%d" % (o["tool"], o["bak"], o["stale"], o["outx"], o["json"], o["changed"])
+    return "%s b%d s%d x%d j%d c%d l%d" % (o["tool"], o["bak"], o["stale"], o["outx"], o["json"], o["changed"], o.get("link", False))
 
 
 # ---------------------------------------------------------------------------------------------
@@ -382,6 +407,17 @@ def judge(sc, run):
                 out.append(("backup-not-preimage:%s:after-copy" % tool,
                             "%s [%s]: the backup copy succeeded but .bak is not the pre-image %s" %
                             (where, sc["doc"], "after call %d" % (bad[0] + 1) if bad else "at exit")))
+    # (3') the backup is a copy: it must not be another name of the file the target path reads
+    if o["bak"] and f.get("backup_aliases_target"):
+        out.append(("backup-aliases-target:%s" % tool,
+                    "%s [%s] fault=%s: %s.bak is a link to the same file as the target, not a copy of the pre-image" %
+                    (where, sc["doc"], fault, sc["target"])))
+    # (5) a run that took the restore-on-assertion path (exit 3, "The original file content was restored") leaves
+    #     the pre-image in the target - observed after main() has fully unwound
+    if fault is not None and fault.get("kind") == "assert" and not f["target_unchanged"]:
+        out.append(("restore-lost:%s:%s" % (tool, fault.get("eff")),
+                    "%s [%s] fault=%s (status %s): the restore path ran but the target does not hold the original bytes "
+                    "(.bak %s)" % (where, sc["doc"], fault, run["status"], "present" if f["backup_present"] else "absent")))
     # (4) --backup and at most one failed call: target or backup holds the original bytes, at every point
     if o["bak"]:
         for i, s in enumerate(f["steps"]):
@@ -745,7 +781,11 @@ def run(ctx):
                      ("MC_YSave_valafter.cfg", "InvPreWriteFailureLeavesNoTrace"),
                      # the order of yaml_merge.py:291-307 as pinned (backup, then prepare_for_dump): a design-level
                      # prediction; it becomes a verdict only through the byte-level facts of the real runs below
-                     ("MC_YSave_pinned.cfg", "InvPreWriteFailureLeavesNoTrace")):
+                     ("MC_YSave_pinned.cfg", "InvPreWriteFailureLeavesNoTrace"),
+                     # the restore handler without its leading close (buffered dump-partial + flush on unwinding)
+                     ("MC_YSave_noclose.cfg", "InvNoBackupWhenUnchanged"),
+                     # the backup of a symlinked target copied as a link
+                     ("MC_YSave_linkbak.cfg", "InvBackupIsPreimage")):
         r = core.run_tlc(ctx, "MC_YSave", cfg, env={"CASES_OUT": os.devnull}, workers=1)
         defects[cfg] = r["violated"]
         if r["violated"] != inv:
@@ -757,6 +797,8 @@ def run(ctx):
 
     # ---- the real code: every scenario, every fault
     scs = scenarios(ctx, rng)
+    for sc in scs:
+        sc["_quick"] = ctx.quick
     byid = {sc["id"]: sc for sc in scs}
     results = {}
     with mp.Pool(core.NCPU) as pool:
@@ -776,6 +818,7 @@ def run(ctx):
     observed_by_o = {}
     unchanged_touched = 0
     natural_loss = []
+    link_replaced = 0
     for sid in sorted(results):
         sc = byid[sid]
         for j, run in enumerate(results[sid]):
@@ -788,6 +831,8 @@ def run(ctx):
             if sc["doc"].startswith("natural:") and not sc["o"]["bak"] and run["code"] == "fail" and not run["facts"]["target_unchanged"]:
                 natural_loss.append("%s %s: status %s, target left %s (no --backup: outside the statement)" % (
                     " ".join(sc["argv"][1:-1]), sc["doc"], run["status"], run["fs"]["target"]))
+            if sc.get("link") and not run["facts"].get("target_kind_kept", True):
+                link_replaced += 1       # the documentation is silent about symlinked targets: informational
             if not sc["o"]["changed"] and (run["facts"]["new_names"] or not run["facts"]["target_unchanged"]
                                            or not run["facts"]["backup_same_as_before"]):
                 unchanged_touched += 1
@@ -856,7 +901,7 @@ def run(ctx):
     distinct = len({(okey(byid[r["sid"]]["o"]), proj(r["tr"])) for r in recs})
     sample = next(r for r in recs if r["o"]["tool"] == "set" and r["o"]["bak"] and r["o"]["stale"] and r["code"] == "fail"
                   and any(e["op"] == "dump" and e["res"] == "fail" for e in r["tr"]))
-    ctx.informational += unchanged_touched + len(natural_loss)
+    ctx.informational += unchanged_touched + len(natural_loss) + link_replaced
     ctx.coverage.update({
         "evaluations": nruns + (strace_ev["runs"] if strace_ev else 0),
         "scenarios": len(scs),
@@ -881,6 +926,8 @@ def run(ctx):
         "cause_not_triggered": not_triggered[:10],
         "cause_not_triggered_count": len(not_triggered),
         "unchanged_but_touched": unchanged_touched,
+        "informational_symlink_target_replaced_by_regular_file": link_replaced,
+        "symlink_target_runs": sum(len(results[sid]) for sid in results if byid[sid].get("link")),
         "informational_uninjected_dump_failure_without_backup": natural_loss[:2],
         "strace_layer": strace_ev,
         "exhaustive": True,
